@@ -259,4 +259,206 @@ theorem color_is_spec (w h bits : Nat) (d a : Array Nat) (hb : Bytes a) (hd : By
   intro p hp
   exact key p (List.mem_range.mp hp)
 
+
+/-! ### predictor transform: the fourteen predictor bodies -/
+
+/-- the four bytes `[r, g, b, a]` of an ARGB pixel -/
+def bytesOf (P : Nat) : List Nat := [VP8L.ch P 2, VP8L.ch P 1, VP8L.ch P 0, VP8L.ch P 3]
+def packL (v : List Nat) : Nat := VP8L.mk (v.getD 3 0) (v.getD 0 0) (v.getD 1 0) (v.getD 2 0)
+/-- byte index → channel number -/
+def chanOf (c : Nat) : Nat := if c = 0 then 2 else if c = 2 then 0 else c
+
+theorem ch_lt (P k : Nat) : VP8L.ch P k < 256 := by unfold VP8L.ch; omega
+
+theorem ch_perCh (f : Nat → Nat) : VP8L.ch (VP8L.perCh f) 0 = f 0 % 256 ∧ VP8L.ch (VP8L.perCh f) 1 = f 1 % 256 ∧
+    VP8L.ch (VP8L.perCh f) 2 = f 2 % 256 ∧ VP8L.ch (VP8L.perCh f) 3 = f 3 % 256 := by
+  unfold VP8L.perCh
+  exact ch_mk _ _ _ _ (by omega) (by omega) (by omega) (by omega)
+
+theorem ch_packL_chans (f : Nat → Nat) (hf : ∀ c, f c < 256) :
+    VP8L.ch (packL (chans f)) 0 = f 2 ∧ VP8L.ch (packL (chans f)) 1 = f 1 ∧ VP8L.ch (packL (chans f)) 2 = f 0 ∧ VP8L.ch (packL (chans f)) 3 = f 3 := by
+  unfold packL chans
+  exact ch_mk _ _ _ _ (hf 3) (hf 0) (hf 1) (hf 2)
+
+theorem bytesOf_getD (P : Nat) : (bytesOf P).getD 0 0 = VP8L.ch P 2 ∧ (bytesOf P).getD 1 0 = VP8L.ch P 1 ∧
+    (bytesOf P).getD 2 0 = VP8L.ch P 0 ∧ (bytesOf P).getD 3 0 = VP8L.ch P 3 := ⟨rfl, rfl, rfl, rfl⟩
+
+/-- two pixels with the same four channels add the same -/
+def SameCh (X Y : Nat) : Prop := VP8L.ch X 0 = VP8L.ch Y 0 ∧ VP8L.ch X 1 = VP8L.ch Y 1 ∧ VP8L.ch X 2 = VP8L.ch Y 2 ∧ VP8L.ch X 3 = VP8L.ch Y 3
+
+theorem avg_lt (a b : Nat) (ha : a < 256) (hb : b < 256) : average2 a b < 256 := by unfold average2; omega
+
+theorem bytesOf_lt (P c : Nat) : (bytesOf P).getD c 0 < 256 := by
+  rcases c with _ | _ | _ | _ | c <;> simp [bytesOf, ch_lt]
+
+theorem ch_perCh' (f : Nat → Nat) (k : Nat) (hk : k < 4) : VP8L.ch (VP8L.perCh f) k = f k % 256 := by
+  obtain ⟨h0, h1, h2, h3⟩ := ch_perCh f
+  have : k = 0 ∨ k = 1 ∨ k = 2 ∨ k = 3 := by omega
+  rcases this with h | h | h | h <;> subst h <;> assumption
+
+theorem ch_avg2 (p q k : Nat) (hk : k < 4) : VP8L.ch (VP8L.avg2 p q) k = (VP8L.ch p k + VP8L.ch q k) / 2 := by
+  unfold VP8L.avg2; rw [ch_perCh' _ k hk]; have := ch_lt p k; have := ch_lt q k; omega
+
+theorem clamp_le (v : Int) : VP8L.clamp v < 256 := by unfold VP8L.clamp; split <;> (try split) <;> omega
+
+theorem ch_full (a b c k : Nat) (hk : k < 4) :
+    VP8L.ch (VP8L.clampAddSubFull a b c) k = LK.clampAddSubFull (VP8L.ch a k) (VP8L.ch b k) (VP8L.ch c k) := by
+  unfold VP8L.clampAddSubFull; rw [ch_perCh' _ k hk]
+  have := clamp_le ((VP8L.ch a k : Int) + VP8L.ch b k - VP8L.ch c k)
+  rw [Nat.mod_eq_of_lt this]
+  unfold LK.clampAddSubFull VP8L.clamp; split <;> (try split) <;> omega
+
+theorem ch_half (a b k : Nat) (hk : k < 4) :
+    VP8L.ch (VP8L.clampAddSubHalf a b) k = LK.clampAddSubHalf (VP8L.ch a k) (VP8L.ch b k) := by
+  unfold VP8L.clampAddSubHalf; rw [ch_perCh' _ k hk]
+  have := clamp_le ((VP8L.ch a k : Int) + Int.tdiv ((VP8L.ch a k : Int) - VP8L.ch b k) 2)
+  rw [Nat.mod_eq_of_lt this]
+  unfold LK.clampAddSubHalf VP8L.clamp; split <;> (try split) <;> omega
+
+theorem select_bytes (L T TL : Nat) :
+    selectLeft (chans fun c => (bytesOf L).getD c 0) (chans fun c => (bytesOf T).getD c 0) (chans fun c => (bytesOf TL).getD c 0) = true ↔
+    ((List.range 4).map fun k => (((VP8L.ch L k : Int) + VP8L.ch T k - VP8L.ch TL k) - VP8L.ch L k).natAbs).sum <
+    ((List.range 4).map fun k => (((VP8L.ch L k : Int) + VP8L.ch T k - VP8L.ch TL k) - VP8L.ch T k).natAbs).sum := by
+  unfold selectLeft chans bytesOf
+  simp [List.range, List.range.loop]
+  omega
+
+macro "chan4" : tactic => `(tactic| (refine ⟨?_, ?_, ?_, ?_⟩ <;> simp only [ch_avg2 _ _ _ (by omega : (0:Nat) < 4), ch_avg2 _ _ _ (by omega : (1:Nat) < 4), ch_avg2 _ _ _ (by omega : (2:Nat) < 4), ch_avg2 _ _ _ (by omega : (3:Nat) < 4), ch_full _ _ _ _ (by omega : (0:Nat) < 4), ch_full _ _ _ _ (by omega : (1:Nat) < 4), ch_full _ _ _ _ (by omega : (2:Nat) < 4), ch_full _ _ _ _ (by omega : (3:Nat) < 4), ch_half _ _ _ (by omega : (0:Nat) < 4), ch_half _ _ _ (by omega : (1:Nat) < 4), ch_half _ _ _ (by omega : (2:Nat) < 4), ch_half _ _ _ (by omega : (3:Nat) < 4), average2, half13]))
+
+theorem predPx_1 (A B C D : List Nat) : predPx 1 A B C D = chans (fun c => A.getD c 0) := by
+  unfold predPx; rfl
+theorem predict_1 (L T TR TL : Nat) : VP8L.predict 1 L T TR TL = L := by
+  unfold VP8L.predict; rfl
+theorem predPx_2 (A B C D : List Nat) : predPx 2 A B C D = chans (fun c => B.getD c 0) := by
+  unfold predPx; rfl
+theorem predict_2 (L T TR TL : Nat) : VP8L.predict 2 L T TR TL = T := by
+  unfold VP8L.predict; rfl
+theorem predPx_3 (A B C D : List Nat) : predPx 3 A B C D = chans (fun c => C.getD c 0) := by
+  unfold predPx; rfl
+theorem predict_3 (L T TR TL : Nat) : VP8L.predict 3 L T TR TL = TR := by
+  unfold VP8L.predict; rfl
+theorem predPx_4 (A B C D : List Nat) : predPx 4 A B C D = chans (fun c => D.getD c 0) := by
+  unfold predPx; rfl
+theorem predict_4 (L T TR TL : Nat) : VP8L.predict 4 L T TR TL = TL := by
+  unfold VP8L.predict; rfl
+theorem predPx_5 (A B C D : List Nat) : predPx 5 A B C D = chans (fun c => average2 (average2 (A.getD c 0) (C.getD c 0)) (B.getD c 0)) := by
+  unfold predPx; rfl
+theorem predict_5 (L T TR TL : Nat) : VP8L.predict 5 L T TR TL = VP8L.avg2 (VP8L.avg2 L TR) T := by
+  unfold VP8L.predict; rfl
+theorem predPx_6 (A B C D : List Nat) : predPx 6 A B C D = chans (fun c => average2 (A.getD c 0) (D.getD c 0)) := by
+  unfold predPx; rfl
+theorem predict_6 (L T TR TL : Nat) : VP8L.predict 6 L T TR TL = VP8L.avg2 L TL := by
+  unfold VP8L.predict; rfl
+theorem predPx_7 (A B C D : List Nat) : predPx 7 A B C D = chans (fun c => average2 (A.getD c 0) (B.getD c 0)) := by
+  unfold predPx; rfl
+theorem predict_7 (L T TR TL : Nat) : VP8L.predict 7 L T TR TL = VP8L.avg2 L T := by
+  unfold VP8L.predict; rfl
+theorem predPx_8 (A B C D : List Nat) : predPx 8 A B C D = chans (fun c => average2 (D.getD c 0) (B.getD c 0)) := by
+  unfold predPx; rfl
+theorem predict_8 (L T TR TL : Nat) : VP8L.predict 8 L T TR TL = VP8L.avg2 TL T := by
+  unfold VP8L.predict; rfl
+theorem predPx_9 (A B C D : List Nat) : predPx 9 A B C D = chans (fun c => average2 (B.getD c 0) (C.getD c 0)) := by
+  unfold predPx; rfl
+theorem predict_9 (L T TR TL : Nat) : VP8L.predict 9 L T TR TL = VP8L.avg2 T TR := by
+  unfold VP8L.predict; rfl
+theorem predPx_10 (A B C D : List Nat) : predPx 10 A B C D = chans (fun c => average2 (average2 (A.getD c 0) (D.getD c 0)) (average2 (B.getD c 0) (C.getD c 0))) := by
+  unfold predPx; rfl
+theorem predict_10 (L T TR TL : Nat) : VP8L.predict 10 L T TR TL = VP8L.avg2 (VP8L.avg2 L TL) (VP8L.avg2 T TR) := by
+  unfold VP8L.predict; rfl
+theorem predPx_12 (A B C D : List Nat) : predPx 12 A B C D = chans (fun c => clampAddSubFull (A.getD c 0) (B.getD c 0) (D.getD c 0)) := by
+  unfold predPx; rfl
+theorem predict_12 (L T TR TL : Nat) : VP8L.predict 12 L T TR TL = VP8L.clampAddSubFull L T TL := by
+  unfold VP8L.predict; rfl
+theorem predPx_13 (A B C D : List Nat) : predPx 13 A B C D = chans (fun c => clampAddSubHalf (half13 (A.getD c 0) (B.getD c 0)) (D.getD c 0)) := by
+  unfold predPx; rfl
+theorem predict_13 (L T TR TL : Nat) : VP8L.predict 13 L T TR TL = VP8L.clampAddSubHalf (VP8L.avg2 L T) TL := by
+  unfold VP8L.predict; rfl
+theorem predPx_0 (A B C D : List Nat) : predPx 0 A B C D = [0, 0, 0, 255] := by
+  unfold predPx; rfl
+theorem predict_0 (L T TR TL : Nat) : VP8L.predict 0 L T TR TL = 0xff000000 := by
+  unfold VP8L.predict; rfl
+theorem predPx_11 (A B C D : List Nat) : predPx 11 A B C D =
+    if selectLeft (chans fun c => A.getD c 0) (chans fun c => B.getD c 0) (chans fun c => D.getD c 0) then chans (fun c => A.getD c 0) else chans (fun c => B.getD c 0) := by
+  unfold predPx; rfl
+theorem predict_11 (L T TR TL : Nat) : VP8L.predict 11 L T TR TL = VP8L.select L T TL := by
+  unfold VP8L.predict; rfl
+
+theorem clampFull_lt (a b c : Nat) : LK.clampAddSubFull a b c < 256 := by unfold LK.clampAddSubFull; omega
+theorem clampHalf_lt (a b : Nat) : LK.clampAddSubHalf a b < 256 := by unfold LK.clampAddSubHalf; omega
+
+/-- **the fourteen predictor bodies are the specification's predictors**, channel by channel, for
+    all neighbour pixels -/
+theorem predPx_is_predict (m : Nat) (hm : m < 14) (L T TR TL : Nat) :
+    SameCh (packL (predPx m (bytesOf L) (bytesOf T) (bytesOf TR) (bytesOf TL))) (VP8L.predict m L T TR TL) := by
+  obtain ⟨l0, l1, l2, l3⟩ := bytesOf_getD L
+  obtain ⟨t0, t1, t2, t3⟩ := bytesOf_getD T
+  obtain ⟨r0, r1, r2, r3⟩ := bytesOf_getD TR
+  obtain ⟨q0, q1, q2, q3⟩ := bytesOf_getD TL
+  have bL := bytesOf_lt L; have bT := bytesOf_lt T; have bR := bytesOf_lt TR; have bQ := bytesOf_lt TL
+  unfold SameCh
+  have cases : m = 0 ∨ m = 1 ∨ m = 2 ∨ m = 3 ∨ m = 4 ∨ m = 5 ∨ m = 6 ∨ m = 7 ∨ m = 8 ∨ m = 9 ∨ m = 10 ∨ m = 11 ∨ m = 12 ∨ m = 13 := by omega
+  rcases cases with h | h | h | h | h | h | h | h | h | h | h | h | h | h <;> subst h
+  · rw [predPx_0, predict_0]; exact ⟨by decide, by decide, by decide, by decide⟩
+  · rw [predPx_1, predict_1]
+    obtain ⟨p0, p1, p2, p3⟩ := ch_packL_chans _ (bL)
+    simp only [p0, p1, p2, p3, l0, l1, l2, l3, t0, t1, t2, t3, r0, r1, r2, r3, q0, q1, q2, q3]
+    chan4
+  · rw [predPx_2, predict_2]
+    obtain ⟨p0, p1, p2, p3⟩ := ch_packL_chans _ (bT)
+    simp only [p0, p1, p2, p3, l0, l1, l2, l3, t0, t1, t2, t3, r0, r1, r2, r3, q0, q1, q2, q3]
+    chan4
+  · rw [predPx_3, predict_3]
+    obtain ⟨p0, p1, p2, p3⟩ := ch_packL_chans _ (bR)
+    simp only [p0, p1, p2, p3, l0, l1, l2, l3, t0, t1, t2, t3, r0, r1, r2, r3, q0, q1, q2, q3]
+    chan4
+  · rw [predPx_4, predict_4]
+    obtain ⟨p0, p1, p2, p3⟩ := ch_packL_chans _ (bQ)
+    simp only [p0, p1, p2, p3, l0, l1, l2, l3, t0, t1, t2, t3, r0, r1, r2, r3, q0, q1, q2, q3]
+    chan4
+  · rw [predPx_5, predict_5]
+    obtain ⟨p0, p1, p2, p3⟩ := ch_packL_chans _ (fun c => avg_lt _ _ (avg_lt _ _ (bL c) (bR c)) (bT c))
+    simp only [p0, p1, p2, p3, l0, l1, l2, l3, t0, t1, t2, t3, r0, r1, r2, r3, q0, q1, q2, q3]
+    chan4
+  · rw [predPx_6, predict_6]
+    obtain ⟨p0, p1, p2, p3⟩ := ch_packL_chans _ (fun c => avg_lt _ _ (bL c) (bQ c))
+    simp only [p0, p1, p2, p3, l0, l1, l2, l3, t0, t1, t2, t3, r0, r1, r2, r3, q0, q1, q2, q3]
+    chan4
+  · rw [predPx_7, predict_7]
+    obtain ⟨p0, p1, p2, p3⟩ := ch_packL_chans _ (fun c => avg_lt _ _ (bL c) (bT c))
+    simp only [p0, p1, p2, p3, l0, l1, l2, l3, t0, t1, t2, t3, r0, r1, r2, r3, q0, q1, q2, q3]
+    chan4
+  · rw [predPx_8, predict_8]
+    obtain ⟨p0, p1, p2, p3⟩ := ch_packL_chans _ (fun c => avg_lt _ _ (bQ c) (bT c))
+    simp only [p0, p1, p2, p3, l0, l1, l2, l3, t0, t1, t2, t3, r0, r1, r2, r3, q0, q1, q2, q3]
+    chan4
+  · rw [predPx_9, predict_9]
+    obtain ⟨p0, p1, p2, p3⟩ := ch_packL_chans _ (fun c => avg_lt _ _ (bT c) (bR c))
+    simp only [p0, p1, p2, p3, l0, l1, l2, l3, t0, t1, t2, t3, r0, r1, r2, r3, q0, q1, q2, q3]
+    chan4
+  · rw [predPx_10, predict_10]
+    obtain ⟨p0, p1, p2, p3⟩ := ch_packL_chans _ (fun c => avg_lt _ _ (avg_lt _ _ (bL c) (bQ c)) (avg_lt _ _ (bT c) (bR c)))
+    simp only [p0, p1, p2, p3, l0, l1, l2, l3, t0, t1, t2, t3, r0, r1, r2, r3, q0, q1, q2, q3]
+    chan4
+  · rw [predPx_11, predict_11]
+    unfold VP8L.select
+    by_cases hs : selectLeft (chans fun c => (bytesOf L).getD c 0) (chans fun c => (bytesOf T).getD c 0) (chans fun c => (bytesOf TL).getD c 0) = true
+    · rw [if_pos hs]
+      have := (select_bytes L T TL).mp hs
+      rw [if_pos this]
+      obtain ⟨p0, p1, p2, p3⟩ := ch_packL_chans _ bL
+      rw [p0, p1, p2, p3]; exact ⟨l2, l1, l0, l3⟩
+    · rw [if_neg hs]
+      have := fun h => hs ((select_bytes L T TL).mpr h)
+      rw [if_neg this]
+      obtain ⟨p0, p1, p2, p3⟩ := ch_packL_chans _ bT
+      rw [p0, p1, p2, p3]; exact ⟨t2, t1, t0, t3⟩
+  · rw [predPx_12, predict_12]
+    obtain ⟨p0, p1, p2, p3⟩ := ch_packL_chans (fun c => clampAddSubFull ((bytesOf L).getD c 0) ((bytesOf T).getD c 0) ((bytesOf TL).getD c 0)) (fun c => clampFull_lt _ _ _)
+    simp only [p0, p1, p2, p3, l0, l1, l2, l3, t0, t1, t2, t3, r0, r1, r2, r3, q0, q1, q2, q3]
+    chan4
+  · rw [predPx_13, predict_13]
+    obtain ⟨p0, p1, p2, p3⟩ := ch_packL_chans (fun c => clampAddSubHalf (half13 ((bytesOf L).getD c 0) ((bytesOf T).getD c 0)) ((bytesOf TL).getD c 0)) (fun c => clampHalf_lt _ _)
+    simp only [p0, p1, p2, p3, l0, l1, l2, l3, t0, t1, t2, t3, r0, r1, r2, r3, q0, q1, q2, q3]
+    chan4
+
 end LTrProof
